@@ -67,6 +67,7 @@ fn replay_case(idx: usize, case: &Value) -> Value {
     let mi = sc["mi"].as_u64().unwrap();
     let mt = sc["mt"].as_u64().unwrap();
     let cost = sc["cost"].as_u64().unwrap();
+    let qcost = sc["qcost"].as_u64().unwrap_or(0);
     let slow = cost > 0;
     let calls: Vec<String> = sc["calls"].as_array().unwrap().iter().map(|x| x.as_str().unwrap().to_string()).collect();
     let admissible: Vec<Vec<String>> = case["admissible"]
@@ -85,8 +86,17 @@ fn replay_case(idx: usize, case: &Value) -> Value {
         // a snapshot does not carry extern functions: the slow variant cannot be restored
         return json!({"idx": idx, "ok": true, "problems": [], "observed": [], "events": [], "skipped": true});
     }
-    let code = program_for(&levels, slow);
-    let max_time = if mt < 100 { Duration::from_millis(15) } else { Duration::from_secs(30) };
+    let mut code = program_for(&levels, slow);
+    if qcost > 0 {
+        // a slow authorizer over a rule-free program: one of the facts is one(1), the check of authorize and
+        // the queries call an extern function that sleeps qcost ticks (1 tick = 20 ms)
+        if levels.len() != 1 || levels[0] == 0 {
+            return json!({"idx": idx, "ok": true, "problems": [], "observed": [], "events": [], "skipped": true});
+        }
+        code = code.replacen("pad(0);", "one(1);", 1);
+        code += "check if one($x), $x.extern::slow();\n";
+    }
+    let max_time = if qcost > 0 { Duration::from_millis(20 * mt) } else if mt < 100 { Duration::from_millis(15) } else { Duration::from_secs(30) };
     let limits = RunLimits { max_facts: mf, max_iterations: mi, max_time };
     let slow_fn = biscuit_auth::datalog::ExternFunc::new(std::sync::Arc::new(|_l, _r| {
         std::thread::sleep(Duration::from_millis(40));
@@ -104,12 +114,14 @@ fn replay_case(idx: usize, case: &Value) -> Value {
     };
     let mut observed: Vec<String> = Vec::new();
     let mut detail: Vec<Value> = Vec::new();
-    let mut events: Vec<Value> = vec![json!({"ev": "scenario", "levels": levels, "mf": mf, "mi": mi, "mt": mt, "cost": cost})];
+    let mut events: Vec<Value> = vec![json!({"ev": "scenario", "levels": levels, "mf": mf, "mi": mi, "mt": mt, "cost": cost, "qcost": qcost})];
     for c in &calls {
         biscuit_auth::verif::record(true);
         let r = util::catch(|| match c.as_str() {
             "run" => classify(a.run()),
             "authorize" => classify(a.authorize()),
+            "query" if qcost > 0 => classify(a.query::<_, (i64,), _>("q($x) <- one($x), $x.extern::slow()")),
+            "query_all" if qcost > 0 => classify(a.query_all::<_, (i64,), _>("q($x) <- one($x), $x.extern::slow()")),
             "query" => classify(a.query::<_, (i64,), _>("q($x) <- reach($x)")),
             "query_all" => classify(a.query_all::<_, (i64,), _>("q($x) <- pad($x)")),
             "snapshot" => match a.to_raw_snapshot().map_err(|e| format!("{e:?}")).and_then(|s| biscuit_auth::Authorizer::from_raw_snapshot(&s).map_err(|e| format!("{e:?}"))) {
